@@ -235,15 +235,7 @@ class _Table(collections.OrderedDict):
 
 
 def any_desc(al, cfg):
-    """representative kinds of an LSPAny payload"""
-    s = {"k": "prim", "json": "str", "type": None, "sym": ("s", al.str_(cfg.str_len)), "sample": "s"}
-    i = {"k": "prim", "json": "int", "type": None, "sym": ("i", al.int_()), "sample": 1}
-    f = {"k": "prim", "json": "float", "type": None, "sym": None, "sample": 2.5}
-    b = {"k": "prim", "json": "bool", "type": None, "sym": None, "sample": False}
-    m = {"k": "map", "items": {"k0": {"k": "prim", "json": "str", "type": None, "sym": None, "sample": "v"}}, "type": None}
-    l = {"k": "list", "elems": [dict(f)], "bits": [None], "type": None}
-    alts = [s, i, f, b, m, l]
-    return {"k": "alt", "alts": alts, "bits": [al.bit("any-kind%d" % j) for j in range(len(alts) - 1)], "type": None}
+    return shapes.any_desc(al, cfg, None, "v")
 
 
 EXTRA_PAYLOADS = ["payload", None, 7, True, ["a", 1], {"k": [1, None]}]  # JSON kinds of the undeclared property's value
